@@ -142,10 +142,33 @@ def run_both(chk, which):
         if not r["ok"]:
             d = r.get("diff", "")
             is06 = any(m in d for m in C06_MARKS) or r.get("crash") or r.get("timeout")
-            if (which == "C06") == bool(is06) or "valid program, parser rejects" in d:
+            # a formatted text that is rejected breaks both properties: it is not the program any more (C06) and it cannot be
+            # formatted a second time (C07)
+            if (which == "C06") == bool(is06) or "valid program, parser rejects" in d or "formatted text is rejected" in d:
                 chk.mismatch(("corpus" if c.get("corpus") else "fam") + "/" + c["class"], d, {"case": c, "result": r})
     if which == "C07":
         cli_check(chk, cases, results, rnd)
+    else:
+        # the command line formats as the library does: evy fmt on standard input gives the text Program.Format gives
+        common.build_evy()
+        sel = [c for c in cases if results[c["id"]]["ok"] and not c.get("corpus")]
+        byprog = {}
+        for c in sel:
+            byprog.setdefault(c["class"].split("/")[0], []).append(c)
+        ncli = 0
+        for prog, cs in sorted(byprog.items()):
+            for c in cs[:3]:
+                for v in c["variants"][:2]:
+                    text = machine.text_of(v)
+                    r = subprocess.run([common.EVY, "fmt"], input=text.encode(), capture_output=True, timeout=30)
+                    ncli += 1
+                    want = results[c["id"]]["obs"]["formatted"]
+                    if r.returncode != 0 or r.stdout.decode("utf-8", "replace") != want:
+                        chk.mismatch("fmt-cli/" + c["class"], "evy fmt on standard input (exit %d) does not give the text the formatter gives: formatting changed the token sequence or more: %r vs %r"
+                                     % (r.returncode, r.stdout.decode("utf-8", "replace")[:200], want[:200]), {"case": c, "text": text})
+        chk.traces += ncli
+        chk.evaluations += ncli
+        chk.extra["fmt_cli_runs"] = ncli
     chk.extra["groups"] = sum(1 for c in cases if not c.get("corpus"))
     chk.extra["corpus_files"] = sum(1 for c in cases if c.get("corpus"))
     chk.exhaustive = False
